@@ -103,12 +103,11 @@ Definition seg_target_matches (t : segtarget) : bool :=
 (* the include/exclude lists of a regular segment: Some b = decided *)
 Definition regular_lists (sg : segment) : option bool :=
   let dk := ctx_key_by_kind kind_user in
-  let only_default := str_eqb (ctx_kind c) kind_user in
   let in_plain l pre := match dk with Some k => find_key k l pre | None => false end in
   if in_plain (sg_included sg) (sg_pre_inc sg) then Some true
-  else if negb only_default && existsb seg_target_matches (sg_inc_ctx sg) then Some true
+  else if existsb seg_target_matches (sg_inc_ctx sg) then Some true
   else if in_plain (sg_excluded sg) (sg_pre_exc sg) then Some false
-  else if negb only_default && existsb seg_target_matches (sg_exc_ctx sg) then Some false
+  else if existsb seg_target_matches (sg_exc_ctx sg) then Some false
   else None.
 
 Definition big_segment_ref (sg : segment) (g : Z) : str := sg_key sg ++ s ".g" ++ dec g.
